@@ -192,6 +192,19 @@ ReRegisterReplaces == \A t \in 1..3 : LET m == LitType[t] e == Lookup(m) IN
                            /\ \A j \in (e.id + 1)..Len(hist) : ~IsLitReg(hist[j], m)
 NotExistIffNothing == \A m \in QM :
   Lookup(m) = None <=> \A j \in DOMAIN hist : ~IsLitReg(hist[j], m) /\ ~IsPatReg(hist[j], m)
+\* bridge to RegistryTyped.tla (Apalache, unbounded histories): the literal map + ordered list give the same
+\* answer as "id of the literal entry, else the smallest first-occurrence id among the matching patterns"
+AbsLitId(m) == IF m \in DOMAIN lit THEN lit[m].id ELSE 0
+AbsPatFirst(p) == LET ix == {i \in DOMAIN pats : pats[i].pat = p}
+                  IN IF ix = {} THEN 0 ELSE pats[CHOOSE i \in ix : \A j \in ix : i <= j].id
+AbsLookupId(m) == LET c == {p \in DesignPats : AbsPatFirst(p) # 0 /\ PatMatch(p, m)}
+                  IN IF AbsLitId(m) # 0 THEN AbsLitId(m)
+                     ELSE IF c = {} THEN 0 ELSE AbsPatFirst(CHOOSE p \in c : \A q \in c : AbsPatFirst(p) <= AbsPatFirst(q))
+AbstractionAgrees == \A m \in QM : Lookup(m).id = AbsLookupId(m)
+\* ... and RegistryTyped.MatchTable is the match relation of the three design patterns on the nine query mimetypes
+ASSUME {pm \in DesignPats \X DOMAIN QMimes : PatMatch(pm[1], QMimes[pm[2]])} =
+       { <<1, 1>>, <<1, 3>>, <<1, 5>>, <<1, 8>>, <<2, 2>>, <<2, 3>>, <<2, 4>>,
+         <<3, 1>>, <<3, 2>>, <<3, 3>>, <<3, 4>>, <<3, 5>>, <<3, 6>>, <<3, 7>>, <<3, 8>>, <<3, 9>> }
 TypeOK == /\ Len(hist) <= MaxRegs
           /\ \A i \in DOMAIN pats : pats[i].id \in 1..Len(hist) /\ (i > 1 => pats[i-1].id < pats[i].id)
           /\ \A m \in DOMAIN lit : lit[m].id \in 1..Len(hist)
